@@ -11,7 +11,7 @@
 (* several convenience parameter kinds behaves as the interleaving.            *)
 CONSTANTS Members, Vals, HwMax, HwModes,                \* LinkedStruct
           Tables, Shapes, Modes, Xs,                  \* LinkedFloatEnum
-          Kinds, Lo, Hi, PVals, LVals, ForbSets,\* LinkedLimits
+          Kinds, Lo, Hi, PVals, LVals, ForbSets, Inits,\* LinkedLimits
           Layouts                               \* LinkedControl
 VARIABLES hwmode, shw, mem, str, sok,
           tab, shape, mode, idx, fhw, req, fval, flast,
